@@ -337,7 +337,41 @@ def builtin_dowhile(text):
     return text, n
 
 
+def builtin_structural(text):
+    """N1: `#[derive(.., PartialEq, Eq, ..)]` additionally gets Verus' `Structural` marker: the derived `==`
+    IS structural equality, which is what the marker states."""
+    n = 0
+
+    def rep(m):
+        nonlocal n
+        ds = [d.strip() for d in m.group(2).split(',')]
+        if 'PartialEq' in ds and 'Eq' in ds and 'Structural' not in ds:
+            n += 1
+            return '%s#[derive(%s, Structural)]' % (m.group(1), ', '.join(ds))
+        return m.group(0)
+    text = re.sub(r'(?m)^(\s*)#\[derive\((.*)\)\]\s*$', rep, text)
+    return text, n
+
+
+def builtin_unreachable_to_obligation(text):
+    """`unreachable!()` marking an internal invariant (not an operand refusal): must be PROVED unreachable."""
+    n = 0
+    while True:
+        found = None
+        for st, op, cl in _find_macro_calls(text, 'unreachable'):
+            found = (st, op, cl)
+            break
+        if not found:
+            break
+        st, op, cl = found
+        text = text[:st] + 'vx_unreachable()' + text[cl + 1:]
+        n += 1
+    return text, n
+
+
 BUILTINS = {
+    'structural': ('N1', builtin_structural),
+    'unreachable_to_obligation': ('N5', builtin_unreachable_to_obligation),
     'assert_to_refuse': ('N5', builtin_assert_to_refuse),
     'unreachable_to_refuse': ('N5', builtin_unreachable_to_refuse),
     'debug_assert_to_proof': ('N5', builtin_debug_assert_to_proof),
@@ -647,6 +681,7 @@ def build(ov):
     out.append('verus! {')
     out.append('#[verifier::external_body]\nfn vx_refuse() ensures false { panic!() }  // N5: a panic never returns')
     out.append('#[verifier::external_body]\nfn vx_refuse_val<T>() -> (r: T) ensures false { panic!() }  // N5, expression position')
+    out.append('#[verifier::external_body]\nfn vx_unreachable<T>() -> (r: T) requires false { unreachable!() }  // N5: must be proved unreachable')
     out.extend(ov.prelude)
     log = b.rewrites_applied
 
